@@ -487,8 +487,9 @@ def evalShort (env : Env) : List ShortItem → CallArgs
 /-- the arguments `_func_` receives from the generated wrapper -/
 def forward (s : ArgSpec) (env : Env) : CallArgs := evalShort env (shortItems s)
 
-/-- `_call_` is `wrapped(func, *args, **kwargs)` of context_managers.py: unless `func` is positional-only there, a
-forwarded keyword called `func` collides with it ("got multiple values for argument 'func'") -/
+/-- `_call_` is `wrapped(func, /, *args, **kwargs)` of context_managers.py: were `func` not positional-only there
+(it was not before /repo 85bde09), a forwarded keyword called `func` would collide with it ("got multiple values
+for argument 'func'"); whether it is, is read from the source -/
 def callerClash (fa : CallArgs) : Bool := !callerFuncPosOnly && hasKey fa.kw callerFuncParam
 
 /-- a call of the generated wrapper: bind by the copied signature; `_call_(_func_, …)` — hidden by a parameter
